@@ -147,12 +147,24 @@ func (s rdNumber[T]) Get() (T, bool) {
 	return s.reader.load(s.txn.cursor)
 }
 
+// held returns the rows of a chunk which are selected and hold a value in this column,
+// together with the chunk's values. The selection itself is left as it is, the result
+// lives in the scratch bitmap.
+func (s rdNumber[T]) held(chunk commit.Chunk, index bitmap.Bitmap, scratch *bitmap.Bitmap) (bitmap.Bitmap, []T) {
+	fill, data := s.reader.chunkAt(chunk)
+	index.Clone(scratch)
+	scratch.And(fill)
+	return *scratch, data
+}
+
 // Sum computes a sum of the column values selected by this transaction
 func (s rdNumber[T]) Sum() (sum T) {
+	var scratch bitmap.Bitmap
 	s.txn.initialize()
 	s.txn.rangeRead(func(chunk commit.Chunk, index bitmap.Bitmap) {
 		if int(chunk) < len(s.reader.chunks) {
-			sum += bitmap.Sum(s.reader.chunks[chunk].data, index)
+			held, data := s.held(chunk, index, &scratch)
+			sum += bitmap.Sum(data, held)
 		}
 	})
 	return sum
@@ -160,12 +172,14 @@ func (s rdNumber[T]) Sum() (sum T) {
 
 // Avg computes an arithmetic mean of the column values selected by this transaction
 func (s rdNumber[T]) Avg() float64 {
+	var scratch bitmap.Bitmap
 	sum, ct := T(0), 0
 	s.txn.initialize()
 	s.txn.rangeRead(func(chunk commit.Chunk, index bitmap.Bitmap) {
 		if int(chunk) < len(s.reader.chunks) {
-			sum += bitmap.Sum(s.reader.chunks[chunk].data, index)
-			ct += index.Count()
+			held, data := s.held(chunk, index, &scratch)
+			sum += bitmap.Sum(data, held)
+			ct += held.Count()
 		}
 	})
 	return float64(sum) / float64(ct)
@@ -173,10 +187,12 @@ func (s rdNumber[T]) Avg() float64 {
 
 // Min finds the smallest value from the column values selected by this transaction
 func (s rdNumber[T]) Min() (min T, ok bool) {
+	var scratch bitmap.Bitmap
 	s.txn.initialize()
 	s.txn.rangeRead(func(chunk commit.Chunk, index bitmap.Bitmap) {
 		if int(chunk) < len(s.reader.chunks) {
-			if v, hit := bitmap.Min(s.reader.chunks[chunk].data, index); hit && (v < min || !ok) {
+			held, data := s.held(chunk, index, &scratch)
+			if v, hit := bitmap.Min(data, held); hit && (v < min || !ok) {
 				min = v
 				ok = true
 			}
@@ -187,10 +203,12 @@ func (s rdNumber[T]) Min() (min T, ok bool) {
 
 // Max finds the largest value from the column values selected by this transaction
 func (s rdNumber[T]) Max() (max T, ok bool) {
+	var scratch bitmap.Bitmap
 	s.txn.initialize()
 	s.txn.rangeRead(func(chunk commit.Chunk, index bitmap.Bitmap) {
 		if int(chunk) < len(s.reader.chunks) {
-			if v, hit := bitmap.Max(s.reader.chunks[chunk].data, index); hit && (v > max || !ok) {
+			held, data := s.held(chunk, index, &scratch)
+			if v, hit := bitmap.Max(data, held); hit && (v > max || !ok) {
 				max = v
 				ok = true
 			}
